@@ -556,6 +556,7 @@ fn gen_level(t: &mut Tape<'_>, opts: &GenOpts, depth: usize, name: &str, inh: &I
             }
             // half of the definitions use the plural builder methods (requires_ifs, conflicts_with_all, overrides_with_all)
             a.plural_builders = t.bool();
+            a.setter_history = t.chance(1, 4);
             if t.chance(opts.relation_weight, 12) && !a.is_positional() && !a.global {
                 a.exclusive = true;
             }
@@ -644,6 +645,8 @@ fn gen_level(t: &mut Tape<'_>, opts: &GenOpts, depth: usize, name: &str, inh: &I
             a.hide_short_help = t.chance(1, 10);
             a.hide_long_help = t.chance(1, 10);
             a.next_line_help = t.chance(1, 10);
+            // the same definition reached through setters called with `false` after `true` and the other way round
+            a.setter_history = t.chance(1, 4);
             if t.chance(1, 6) {
                 a.help_heading = Some(if t.chance(1, 4) {
                     None
